@@ -651,6 +651,7 @@ package server
 //@   loop 0 invariant case pwdsRemoved: forall(key string, visited(key) && old(has(u.userNamespaces, key)) && old(u.userNamespaces[key]) == namespace ==> !(has(u.users, userOf(key)) && mem(u.users[userOf(key)], passOf(key))))
 //@   loop 0 invariant case seen: forall(key string, visited(key) ==> old(has(u.userNamespaces, key)))
 //@   loop 0 invariant case alloc: forall(name string, has(u.users, name) ==> allocated(u.users[name]))
+//@   loop 0 invariant case distinct: old(pwdArraysDistinct(u)) ==> forall(a string, forall(b string, has(u.users, a) && has(u.users, b) && a != b && u.users[a] != nil ==> !sameArray(u.users[a], u.users[b])))
 //@   loop 0 assigns u.users, u.userNamespaces
 //@   loop 1 invariant (newPasswords == nil || (loopfresh(newPasswords) && !sameArray(newPasswords, passwords))) && allocated(passwords)
 //@   loop 1 assigns \local
@@ -661,6 +662,7 @@ package server
 //@   ensures case pwdsKept:    forall(name string, forall(p string, old(has(u.users, name) && mem(u.users[name], p)) && !old(cleared(u, namespace, name, p)) ==> has(u.users, name) && mem(u.users[name], p)))
 //@   ensures case pwdsOld:     forall(name string, forall(p string, has(u.users, name) && mem(u.users[name], p) ==> old(has(u.users, name) && mem(u.users[name], p))))
 //@   ensures case pwdsRemoved: forall(key string, old(has(u.userNamespaces, key)) && old(u.userNamespaces[key]) == namespace ==> !(has(u.users, userOf(key)) && mem(u.users[userOf(key)], passOf(key))))
+//@   ensures case distinct: old(pwdArraysDistinct(u)) ==> pwdArraysDistinct(u)
 
 // ---------------------------------------------------------------- C14 parameter markers of a prepared statement
 // Spec lexer (written from MySQL's lexical rules, not from the code): qs(s, i) is the lexer state after i bytes --
